@@ -146,7 +146,7 @@ def op_def_names_its_extension():
     else:
         sig = ext.OpDefSig(None, True)
     od = e.add_op_def(ext.OpDef("Op", sig, "d"))
-    sym.check("owner_reported", od.get_extension() is e and od._extension is e and e.get_op("Op") is od and e.operations["Op"] is od)
+    sym.check("owner_reported", od.get_extension() is e and e.get_op("Op") is od and e.operations["Op"] is od)
     if kind != 2:
         got = od.signature.poly_func.body.runtime_reqs
         sym.check("own_extension_among_requirements", "own.ext" in got)
